@@ -60,6 +60,13 @@ func (e *FnEnc) call(v ssa.Value, c *ssa.CallCommon, in ssa.Instruction) {
 	if c.IsInvoke() {
 		recv := e.val(c.Value)
 		key := "invoke:" + types.TypeString(c.Value.Type(), nil) + "." + c.Method.Name()
+		if nt, ok := c.Value.Type().(*types.Named); ok && nt.Obj().Pkg() != nil {
+			if con := e.W.Contracts.Funcs[nt.Obj().Pkg().Path()+"::interface "+nt.Obj().Name()+"."+c.Method.Name()]; con != nil {
+				e.note("interface contract " + con.Name + ": implementations are assumed to satisfy it (behavioural subtyping)")
+				e.contractCall(v, con, nil, append([]Val{recv}, args...), c.Signature(), in)
+				return
+			}
+		}
 		if con := e.W.Contracts.Funcs["trusted::"+strings.TrimPrefix(key, "invoke:")]; con != nil {
 			e.contractCall(v, con, nil, append([]Val{recv}, args...), c.Signature(), in)
 			return
@@ -297,6 +304,12 @@ func (e *FnEnc) appendBuiltin(v ssa.Value, c *ssa.CallCommon, args []Val) {
 	}
 	e.setHeap(h, sx("store", e.heap(h), r, na))
 	e.setVal(v, sx("mkslice", r, sx("+", sx("slen", x.T), srcLen)))
+	if n >= 1 && n <= 8 {
+		// consequences of the definition, stated to give the solvers ground terms to instantiate quantifiers with
+		for k := 0; k < n; k++ {
+			e.assume(sx("=", sx("select", sx("select", e.heap(h), r), sx("+", sx("slen", x.T), fmt.Sprint(k))), sx("select", srcArr, fmt.Sprint(k))))
+		}
+	}
 	e.note("A4: append returns a fresh backing array")
 }
 
